@@ -71,6 +71,42 @@ class FnModel:
         for did in incremented:
             if did not in self.loop_vars:
                 self.assigned[did] = self.assigned.get(did, 0) + 1
+        # local arrays defined element-wise exactly once (`A[i] = E(i)` in a loop, nothing else writes A): a hoisted value
+        self.elem_defs = {}
+        writes = {}
+        for x in walk(self.body):
+            k = x.get("k")
+            if k in ("BinaryOperator", "CompoundAssignOperator") and x.get("op", "").endswith("=") and x.get("op") not in ("==", "!=", "<=", ">="):
+                lhs = strip(kids(x)[0])
+                if lhs.get("k") in ("ArraySubscriptExpr", "CXXOperatorCallExpr"):
+                    b = strip(kids(lhs)[-2])
+                    if b.get("k") == "DeclRefExpr":
+                        writes.setdefault(b["did"], []).append((x, lhs))
+            if k == "UnaryOperator" and x.get("op") in ("++", "--"):
+                lhs = strip(kids(x)[0])
+                if lhs.get("k") in ("ArraySubscriptExpr", "CXXOperatorCallExpr"):
+                    b = strip(kids(lhs)[-2])
+                    if b.get("k") == "DeclRefExpr":
+                        writes.setdefault(b["did"], []).append((x, None))
+        for did, ws in writes.items():
+            d = self.decls.get(did)
+            if len(ws) == 1 and ws[0][1] is not None and ws[0][0].get("op") == "=" and d is not None and d.get("k") == "VarDecl" and not kids(d) and did not in self.assigned:
+                idx = strip(kids(ws[0][1])[-1])
+                if idx.get("k") == "DeclRefExpr" and idx.get("did") in self.loop_vars:
+                    # every other mention must be a subscripted read: an array handed to a call, resized, iterated ... is not a hoisted value
+                    bare = False
+                    for y in walk(self.body):
+                        if y.get("k") == "DeclRefExpr" and y.get("did") == did:
+                            p = y.get("_p")
+                            while p is not None and p.get("k") in ("ImplicitCastExpr", "ParenExpr"):
+                                p = p.get("_p")
+                            if p is None or p.get("k") not in ("ArraySubscriptExpr", "CXXOperatorCallExpr") or (p.get("k") == "CXXOperatorCallExpr" and p.get("op") != "[]"):
+                                bare = True
+                                break
+                    if not bare:
+                        self.elem_defs[did] = ws[0][0]
+        self.lambda_bind = {}      # param did -> origin of the argument, while a local lambda is expanded at a call site
+        self.inline_helpers = {}   # name -> function record: same-class helpers with a single return, inlined into origins (set by the caller)
 
     # ------------------------------------------------------------------ origins
     def origin(self, n, depth=0):
@@ -95,7 +131,14 @@ class FnModel:
                 return n["name"]
             did = n.get("did")
             if did in self.loop_vars:
+                d0 = self.decls.get(did)
+                if d0 is not None and kids(d0) and not re.search(r"\b(long|int|short|size_t|ptrdiff_t|unsigned)\b", d0.get("t", "")):
+                    o0 = self.origin(kids(d0)[0], depth + 1)
+                    if o0.startswith("it("):
+                        return o0          # for(auto it = X.begin(); ...): an iterator, same descriptor as the while form
                 return "L" if self.is_level_loop(self.loop_vars[did]) else "loopvar"   # (sym() distinguishes loop variables by declaration)
+            if did in self.lambda_bind:
+                return self.lambda_bind[did]        # parameter of a local lambda being expanded at one of its call sites
             if did in self.range_vars:
                 return "each(" + self.origin(self.range_vars[did], depth + 1) + ")"
             if did in self.lambda_param:
@@ -141,17 +184,44 @@ class FnModel:
                 return "&" + sub
             if op == "-":
                 return "-" + sub
+            if op == "!":
+                m = re.match(r"^\((.*)(<=|<|==|!=)(.*)\)$", sub)
+                if m and _balanced_outer(sub) and _top_level_op(sub, m.group(2)):
+                    a0, o0, b0 = _split_top(sub, m.group(2))
+                    if o0 == "<":
+                        return "(" + b0 + "<=" + a0 + ")"
+                    if o0 == "<=":
+                        return "(" + b0 + "<" + a0 + ")"
+                    return "(" + a0 + ("!=" if o0 == "==" else "==") + b0 + ")"
+                if sub.startswith("!") and not sub.startswith("!="):
+                    return sub[1:]
             return op + sub
         if k == "BinaryOperator":
             a, b = kids(n)
-            return "(" + self.origin(a, depth + 1) + n.get("op") + self.origin(b, depth + 1) + ")"
+            oa, ob, op = self.origin(a, depth + 1), self.origin(b, depth + 1), n.get("op")
+            # one spelling per comparison: only < and <= ; emptiness tests as X.empty() / !X.empty()
+            if op in (">", ">="):
+                oa, ob, op = ob, oa, {">": "<", ">=": "<="}[op]
+            for x, y in ((oa, ob), (ob, oa)):
+                if y == "0" and x.endswith(".size()"):
+                    if op == "==":
+                        return x[:-len(".size()")] + ".empty()"
+                    if op == "!=" or (op == "<" and x is ob):
+                        return "!" + x[:-len(".size()")] + ".empty()"
+            return "(" + oa + op + ob + ")"
         if k in ("ArraySubscriptExpr",):
             a, b = kids(n)
+            sa = strip(a)
+            if sa.get("k") == "DeclRefExpr" and sa.get("did") in self.elem_defs and not self._is_def_lhs(n):
+                return self.origin(kids(self.elem_defs[sa["did"]])[1], depth + 1)
             return self.origin(a, depth + 1) + "[" + self.origin(b, depth + 1) + "]"
         if k == "CXXOperatorCallExpr":
             c = kids(n)
             op = n.get("op")
             if op == "[]":
+                sa = strip(c[1])
+                if sa.get("k") == "DeclRefExpr" and sa.get("did") in self.elem_defs and not self._is_def_lhs(n):
+                    return self.origin(kids(self.elem_defs[sa["did"]])[1], depth + 1)
                 return self.origin(c[1], depth + 1) + "[" + self.origin(c[2], depth + 1) + "]"
             if op == "*" and len(c) == 2:
                 sub = self.origin(c[1], depth + 1)
@@ -183,7 +253,11 @@ class FnModel:
                     return base
                 if name == "getTreeHeight":
                     return "H"
+                if name in self.inline_helpers and base in ("this", "*this") and len(self.inline_helpers[name]["params"]) == len(args):
+                    return self._inline(self.inline_helpers[name], args, depth)
                 return base + "." + name + "(" + ",".join(self.origin(a, depth + 1) for a in args) + ")"
+            if name in self.inline_helpers and len(self.inline_helpers[name]["params"]) == len(args):
+                return self._inline(self.inline_helpers[name], args, depth)
             # free function
             if name == "CreateNew" and len(args) == 1:
                 return "&" + self.origin(args[0], depth + 1)    # heap copy: *CreateNew(x) is x
@@ -192,6 +266,8 @@ class FnModel:
             if name in ("omp_get_thread_num", "GetThreadId", "starpu_worker_get_id"):
                 return "wid"
             q = callee.get("qual", "")
+            if name == "size" and len(args) == 1:
+                return self.origin(args[0], depth + 1) + ".size()"
             return q + str(name) + "(" + ",".join(self.origin(a, depth + 1) for a in args) + ")"
         if k == "ParenListExpr":
             return "ctor(" + ",".join(self.origin(a, depth + 1) for a in kids(n)) + ")"
@@ -205,6 +281,27 @@ class FnModel:
         if k == "InitListExpr":
             return "{" + ",".join(self.origin(a, depth + 1) for a in kids(n)) + "}"
         return "?" + k
+
+    def _is_def_lhs(self, n):
+        p = n.get("_p")
+        while p is not None and p.get("k") in ("ParenExpr", "ImplicitCastExpr"):
+            n, p = p, p.get("_p")
+        return p is not None and any(p is d for d in self.elem_defs.values()) and strip(kids(p)[0]) is strip(n)
+
+    def _inline(self, g, args, depth):
+        rs = [r for r in walk(tbf.body(g)) if r.get("k") == "ReturnStmt" and kids(r)]
+        sub = FnModel(self.facts, g)
+        o = sub.origin(kids(rs[0])[0], depth + 1)
+        amap = {"param%d" % i: self.origin(a, depth + 1) for i, a in enumerate(args)}
+        o = re.sub(r"\bparam(\d+)\b", lambda m: amap.get(m.group(0), m.group(0)), o)
+        return o if (o.startswith("(") and _balanced_outer(o)) else "(" + o + ")"
+
+    def cond_origin(self, n):
+        """origin of an expression used as a condition: bare `X.size()` means non-empty"""
+        o = self.origin(n)
+        if o.endswith(".size()") and not o.startswith("("):
+            return "!" + o[:-len(".size()")] + ".empty()"
+        return o
 
     def is_level_loop(self, forstmt):
         txt = "".join(self.facts.ntext(x) for x in forstmt["c"][:2] if x)
@@ -353,6 +450,39 @@ class FnModel:
             if op == ">=":
                 return bound, start, "down"
         raise AnalysisBroken("loop direction and comparison disagree at " + self.facts.loc(forstmt))
+
+
+def _split_top(o, op):
+    """(lhs, op, rhs) of the outermost binary expression `(lhs op rhs)`; None when op is not at nesting depth 1"""
+    d = 0
+    i = 0
+    while i < len(o):
+        ch = o[i]
+        if ch == "(":
+            d += 1
+        elif ch == ")":
+            d -= 1
+        elif d == 1 and o.startswith(op, i) and not (op == "<" and o.startswith("<=", i)) and not (op == "<" and o.startswith("<<", i)) and not (i > 0 and o[i - 1] in "<>=!" and op in ("=", "==")):
+            return o[1:i], op, o[i + len(op):-1]
+        i += 1
+    return None
+
+
+def _top_level_op(o, op):
+    return _split_top(o, op) is not None
+
+
+def _balanced_outer(o):
+    """the first '(' closes at the last character"""
+    d = 0
+    for i, ch in enumerate(o):
+        if ch == "(":
+            d += 1
+        elif ch == ")":
+            d -= 1
+            if d == 0:
+                return i == len(o) - 1
+    return False
 
 
 def normK(s):
